@@ -1399,3 +1399,32 @@ Proof.
   exists [XDone 0 (RAck true [1]); XDone 1 (RAck false []); XRead 0], 0.
   intros [rest H]. vm_compute in H. discriminate H.
 Qed.
+
+(* ------------------------------------------------------------------ link statistics never raise (HEAD's guards) *)
+
+Definition stats_ok (s : rstats) : Prop := 0 <= st_up s /\ 0 <= st_down s.
+
+Lemma stats_update_total o d e s : stats_ok s -> exists s1, stats_update o d e s = Some s1 /\ stats_ok s1.
+Proof.
+  intros [Hu Hd]. unfold stats_update. destruct d as [|d0 t].
+  - eexists. split; [reflexivity|]. split; cbn [st_up st_down]; lia.
+  - destruct e.
+    + unfold stats_report, pdiv. cbn [st_up st_nup st_down st_ndown].
+      destruct (st_up s + 1 =? 0) eqn:E1; [lia|]. destruct (st_down s + 1 =? 0) eqn:E2; [lia|].
+      exists stats0. split; [reflexivity|]. split; cbn; lia.
+    + eexists. split; [reflexivity|]. split; cbn [st_up st_down]; lia.
+Qed.
+
+Lemma stats_never_raise calls : forall s, stats_ok s -> exists s1, stats_run stats_update calls s = Some s1.
+Proof.
+  induction calls as [|[[o d] e] t IH]; intros s H; cbn [stats_run].
+  - now exists s.
+  - destruct (stats_update_total o d e s H) as (s1 & -> & H1). now apply IH.
+Qed.
+
+Lemma stats_unguarded_refuted :
+  exists calls, stats_run stats_update_unguarded calls stats0 = None.
+Proof. exists [(false, [], true)]. reflexivity. Qed.
+
+Lemma stats_never_raise0 calls : exists s1, stats_run stats_update calls stats0 = Some s1.
+Proof. apply stats_never_raise. split; cbn; lia. Qed.
